@@ -21,11 +21,11 @@ import tempfile
 from concurrent.futures import ThreadPoolExecutor
 
 REPO = '/repo'
-CHECK = '/verif/check.py'
+CHECK = os.environ.get('AUDIT_CHECK', '/verif/check.py')   # a snapshot copy may be audited while /verif is edited
 PROPS = ['C%02d' % i for i in range(1, 20)]
 
 
-sys.path.insert(0, '/verif')
+sys.path.insert(0, os.path.dirname(os.path.abspath(CHECK)))
 from pyins_sa.audit import transforms as _transforms, apply          # noqa: E402
 
 
